@@ -53,6 +53,11 @@ def alphabet():
         ("rel", "D", "influence", None, (e3, e1)),
         ("rel", "D", "membership", None, (e1, e2)),
         ("at", ("A", "k", S("ex")), "s_a"),
+        # the identifier of the generation above, on another relation kind between the same two nodes
+        ("rel", "D", "invalidation", n("gen"), (e2, a1, None)),
+        # an undeclared name (g1 unless declared) referenced in roles of different inferred kinds
+        ("rel", "D", "usage", None, (a1, g1, None)),
+        ("rel", "D", "communication", None, (a1, e3)),
     ]
 
 
